@@ -46,7 +46,7 @@ UNIT_TIMEOUT_S = 40
 def units(tier, seed):
     from .. import corpus
 
-    n = 500 if tier == "quick" else 30000
+    n = 800 if tier == "quick" else 30000
     # W1 synthetic surveys, then W3: the real 3-D payloads of the fixture corpus
     return [{"i": i, "seed": seed} for i in range(n)] + corpus.units(
         tier, seed, reps=2 if tier == "quick" else 12)
@@ -77,7 +77,9 @@ def make_case(unit):
         if g.chance(0.5):
             cases.attach_insertions(g, facets, tr)
         mset = g.pick([(), (), ("mean",), ("sum", "stddev")])
-        spec = sim.CubeSpec(facets, w, mset, g.num(N) if mset else None)
+        if facets[-1][0] == "mr" and g.chance(0.8):
+            mset = tuple(mset) + ("overlap",)  # overlap-corrected pairwise tests per table
+        spec = sim.CubeSpec(facets, w, mset, g.num(N) if set(mset) - {"overlap"} else None)
         if g.chance(0.4):
             from .c05 import add_display_transforms
 
